@@ -28,7 +28,8 @@ def generate(rng, tier):
         calls = [(rng.randint(0, mx), rng.randint(0, mx)) for _ in range(k)]
         cases.append(mk(rng, nc, dim, calls))
     # real samplers: run(n,d) vs an identically built instance stepped manually; continuation; NUTS multi vs single
-    for kind, f in [("mh", "f64"), ("gibbs", "f64"), ("hmc", "f32"), ("nuts", "f32"), ("hmc", "f64"), ("nuts", "f64")]:
+    for kind, f in [("mh", "f64"), ("gibbs", "f64"), ("hmc", "f32"), ("nuts", "f32"), ("hmc", "f64"), ("nuts", "f64"),
+                    ("hmc", "f32b64"), ("hmc", "f64b32")]:
         for _ in range(3 if tier == "quick" else 25):
             n = rng.randint(1 if kind == "nuts" else 0, 7)
             cases.append({"op": "real", "kind": kind, "f": f, "seed": str(rng.getrandbits(64)), "n_chains": rng.choice([1, 2, 5]),
